@@ -6,7 +6,10 @@ CLAIMS = json.load(open(os.path.join(V, 'harness', 'claims.json')))
 TB = ("Trusted: Coq 8.16.1 kernel (vm_compute in Examples/finite sweeps; no native_compute); no axioms (every theorem prints "
       "'Closed under the global context'); extraction with ExtrOcamlBasic only + driver/main.ml; the correspondence harness "
       "(shim, chroot sandbox, generators) which is testing; modelled not verified: trash-cli itself (hand-written model), "
-      "CPython 3.12 library functions, Linux VFS. ")
+      "CPython 3.12 library functions, Linux VFS. Theorems over 'every run' assume well-typed answers (Prog.valid_res); theorems 'on the "
+      "tree of files' assume the file-system relation World.effect (paths are strings - no symlink aliasing; OpenExcl/Remove/Move atomic "
+      "on failure; trees stay trees), whose executable fragment is validated against before/after snapshots of every recorded run "
+      "(world conformance tie). CoqHammer's sauto is used as a tactic in Proofs/ConcProofs.v only (terms re-checked by the kernel). ")
 checks = []
 na = []
 for p in props:
